@@ -7,18 +7,21 @@ extern "C" {
 #include "a/fuzzy.h"
 }
 typedef long double LD;
-static double const EPS = 2.220446049250313e-16;
+static R const EPS = std::numeric_limits<R>::epsilon();
+static LD const U_ = LD(std::numeric_limits<R>::epsilon()) / 2;
+static int const EXMAX = std::numeric_limits<R>::max_exponent; // 1024 / 128
+static R const MINN = std::numeric_limits<R>::min();           // smallest normal number
 
 enum { L_MF, L_MF_BREAKPOINT, L_MF_DEGENERATE, L_MF_SMOOTH, L_MF_LINEAR, L_OPR, L_OPR_BOUNDARY, L_INFER, L_INFER_2x2, L_INFER_NONE_ACTIVE, L_INFER_ZERO_JOINT, L_OPR_EQU, L_OPR_CAP_B, L_N_GE_5, L_ACTIVE_GE_3, L_MF_EXTREME_SCALE, L_RECONFIGURED };
 static char const *const labels[] = {"membership_function", "x_within_2ulp_of_breakpoint", "degenerate_shoulder", "smooth_family", "piecewise_linear_family", "operators", "operator_boundary_argument",
-                                     "inference_step", "ge_2_active_sets_on_both_inputs", "no_active_set", "all_joint_memberships_zero", "operator_equ", "operator_cap_bounded", "rule_order_ge_5", "ge_3_active_sets_on_an_input", "mf_scaled_beyond_2^+-900", "consequent_tables_changed_mid_history", nullptr};
+                                     "inference_step", "ge_2_active_sets_on_both_inputs", "no_active_set", "all_joint_memberships_zero", "operator_equ", "operator_cap_bounded", "rule_order_ge_5", "ge_3_active_sets_on_an_input", "mf_scaled_into_the_outer_eighth_of_the_exponent_range", "consequent_tables_changed_mid_history", nullptr};
 static char const *const metrics[] = {"max_mf_error_over_tol", "max_inference_error_over_tol", "max_active_sets", nullptr};
 static uint8_t const dict[] = {0, 1, 2, 3, 7, 8};
 static vp_info const info = {"C13", "fuzzy", "", labels, metrics, 400, dict, sizeof(dict)};
 extern "C" vp_info const *vp_get_info(void) { return &info; }
 
-static double rd(Tape &t) { return double(int(t.u16() % 4001) - 2000) / 100.0; } // [-20, 20] step 0.01
-static double rdpos(Tape &t) { return double(1 + t.u16() % 1000) / 100.0; }
+static R rd(Tape &t) { return R(int(t.u16() % 4001) - 2000) / 100.0; } // [-20, 20] step 0.01
+static R rdpos(Tape &t) { return R(1 + t.u16() % 1000) / 100.0; }
 
 // reference definitions (core wins at degenerate points), long double
 static LD r_lins(LD x, LD a, LD b) { return x >= b ? 1 : x <= a ? 0 : (x - a) / (b - a); }
@@ -49,17 +52,17 @@ static LD r_gauss2(LD x, LD s1, LD c1, LD s2, LD c2) { return x < c1 ? r_gauss(x
 static LD r_gbell(LD x, LD a, LD b, LD c) { return 1 / (powl(fabsl((x - c) / a), 2 * b) + 1); }
 static LD r_sig(LD x, LD a, LD c) { return 1 / (expl((c - x) * a) + 1); }
 
-static double pick_x(Tape &t, Ctx &cx, std::vector<double> const &bp)
+static R pick_x(Tape &t, Ctx &cx, std::vector<R> const &bp)
 {
     uint8_t c = t.u8() % 8;
-    double lo = bp.front(), hi = bp.back();
-    double span = hi - lo + 1;
+    R lo = bp.front(), hi = bp.back();
+    R span = hi - lo + 1;
     switch (c)
     {
     case 0: return lo - span * (1 + t.u8() % 4);
     case 1: return hi + span * (1 + t.u8() % 4);
     case 2: case 3: {
-        double b = bp[t.u8() % bp.size()];
+        R b = bp[t.u8() % bp.size()];
         int d = int(t.u8() % 5) - 2;
         for (int i = 0; i < (d < 0 ? -d : d); ++i) { b = std::nextafter(b, d < 0 ? -INFINITY : INFINITY); }
         cx.label(L_MF_BREAKPOINT);
@@ -68,26 +71,26 @@ static double pick_x(Tape &t, Ctx &cx, std::vector<double> const &bp)
         size_t i = t.u8() % bp.size(), j = t.u8() % bp.size();
         return 0.5 * (bp[i] + bp[j]); }
     default:
-        return lo - 0.25 * span + 1.5 * span * double(t.u16()) / 65535.0;
+        return lo - 0.25 * span + 1.5 * span * R(t.u16()) / 65535.0;
     }
 }
 
 static void case_mf(Tape &t, Ctx &cx)
 {
     unsigned type = 1 + t.u8() % 13;
-    double p[4];
+    R p[4];
     // sorted break points by construction, equalities with probability 1/4 for the piecewise-linear families
-    double v[4];
+    R v[4];
     v[0] = rd(t);
     for (int i = 1; i < 4; ++i)
     {
         bool eq = (t.u8() % 4) == 0;
         v[i] = v[i - 1] + (eq ? 0.0 : rdpos(t));
     }
-    std::vector<double> bp;
+    std::vector<R> bp;
     LD ref = 0;
-    double x;
-    double tol = 4 * EPS;
+    R x;
+    R tol = 4 * EPS;
     bool degenerate = false;
     cx.label(L_MF);
     cx.hash.add(type);
@@ -113,13 +116,13 @@ static void case_mf(Tape &t, Ctx &cx)
         break;
     case A_MF_S: case A_MF_Z:
         p[0] = v[0]; p[1] = v[0] + rdpos(t); // non-zero width
-        bp = {p[0], 0.5 * (p[0] + p[1]), p[1]};
+        bp = {p[0], R(0.5) * (p[0] + p[1]), p[1]};
         tol = 16 * EPS;
         cx.label(L_MF_SMOOTH);
         break;
     case A_MF_PI:
         p[0] = v[0]; p[1] = v[0] + rdpos(t); p[2] = p[1] + ((t.u8() % 4) ? rdpos(t) : 0.0); p[3] = p[2] + rdpos(t);
-        bp = {p[0], 0.5 * (p[0] + p[1]), p[1], p[2], 0.5 * (p[2] + p[3]), p[3]};
+        bp = {p[0], R(0.5) * (p[0] + p[1]), p[1], p[2], R(0.5) * (p[2] + p[3]), p[3]};
         tol = 16 * EPS;
         cx.label(L_MF_SMOOTH);
         break;
@@ -136,7 +139,7 @@ static void case_mf(Tape &t, Ctx &cx)
         cx.label(L_MF_SMOOTH);
         break;
     case A_MF_GBELL:
-        p[0] = (t.coin() ? 1 : -1) * rdpos(t); p[1] = double(1 + t.u8() % 6) / 2; p[2] = v[0];
+        p[0] = (t.coin() ? 1 : -1) * rdpos(t); p[1] = R(1 + t.u8() % 6) / 2; p[2] = v[0];
         bp = {p[2] - std::fabs(p[0]), p[2], p[2] + std::fabs(p[0])};
         tol = 256 * EPS;
         cx.label(L_MF_SMOOTH);
@@ -166,7 +169,7 @@ static void case_mf(Tape &t, Ctx &cx)
     x = pick_x(t, cx, bp);
     for (unsigned i = 0; i < mf_npar(type); ++i) { cx.hash.addd(p[i]); }
     cx.hash.addd(x);
-    double y, y2 = 0;
+    R y, y2 = 0;
     bool has_pair = false;
     bool any_value_ok = false; // a zero-width ramp has no prescribed value at its single break point
     switch (type)
@@ -195,12 +198,12 @@ static void case_mf(Tape &t, Ctx &cx)
     {
         // near a break point of a steep flank the reference itself is sensitive to the rounding of x - a: scale by the local slope
         LD err = fabsl((LD)y - ref);
-        cx.metric(0, double(err / tol));
+        cx.metric(0, R(err / tol));
         snprintf(sig, sizeof(sig), "mf_%s:wrong_value", nm[type]);
         if (!(err <= tol)) { cx.fail(sig, "a_mf_%s(x=%.17g; %.17g, %.17g, %.17g, %.17g) = %.17g, the documented shape gives %.17Lg", nm[type], x, p[0], p[1], p[2], p[3], y, ref); }
         bool exact_family = type == A_MF_TRAP || type == A_MF_TRI || type == A_MF_LINS || type == A_MF_LINZ || type == A_MF_S || type == A_MF_Z || type == A_MF_PI || type == A_MF_GAUSS2;
         // membership of the core is decided on the arguments themselves: a reference value that merely *rounds* to 1 on a flank
-        // (double rounding in the long double quotient) does not oblige the double result to be exactly 1
+        // (R rounding in the long double quotient) does not oblige the R result to be exactly 1
         bool in_core = false;
         switch (type)
         {
@@ -229,22 +232,22 @@ static void case_mf(Tape &t, Ctx &cx)
         int k;
         switch (t.u8() % 4)
         {
-        case 0: k = 400 + int(t.u16() % 600); break;
-        case 1: k = -(400 + int(t.u16() % 600)); break;
+        case 0: k = EXMAX * 25 / 64 + int(t.u16() % unsigned(EXMAX * 75 / 128)); break;
+        case 1: k = -(EXMAX * 25 / 64 + int(t.u16() % unsigned(EXMAX * 75 / 128))); break;
         case 2: k = 5000 + int(t.u8() % 3); break; /* resolved below: the largest magnitude lands in one of the top three binades */
         default: k = int(t.u8() % 81) - 40; break;
         }
-        double q[4] = {p[0], p[1], p[2], p[3]};
-        double maxmag = std::fabs(x);
+        R q[4] = {p[0], p[1], p[2], p[3]};
+        R maxmag = std::fabs(x);
         for (unsigned i = 0; i < mf_npar(type); ++i) { maxmag = std::max(maxmag, std::fabs(p[i])); }
         int ex;
         std::frexp(maxmag, &ex);
-        if (k >= 5000) { k = 1024 - ex - (k - 5000); }
-        if (k + ex > 1024) { k = 1024 - ex; }
+        if (k >= 5000) { k = EXMAX - ex - (k - 5000); }
+        if (k + ex > EXMAX) { k = EXMAX - ex; }
         {
             // differences of two inputs must stay representable (the shapes are functions of such differences); sums need not
-            double lo = x, hi = x;
-            auto loc = [&](double v) { lo = std::min(lo, v); hi = std::max(hi, v); };
+            R lo = x, hi = x;
+            auto loc = [&](R v) { lo = std::min(lo, v); hi = std::max(hi, v); };
             switch (type)
             {
             case A_MF_GAUSS: case A_MF_SIG: loc(p[1]); break;
@@ -254,10 +257,10 @@ static void case_mf(Tape &t, Ctx &cx)
             }
             int es;
             std::frexp(hi - lo, &es);
-            if (hi > lo && k + es > 1023) { k = 1023 - es; }
+            if (hi > lo && k + es > EXMAX - 1) { k = EXMAX - 1 - es; }
         }
-        auto sc = [&](double v) { return std::ldexp(v, k); };
-        auto isc = [&](double v) { return std::ldexp(v, -k); };
+        auto sc = [&](R v) { return std::ldexp(v, k); };
+        auto isc = [&](R v) { return std::ldexp(v, -k); };
         switch (type)
         {
         case A_MF_GAUSS: q[0] = sc(p[0]); q[1] = sc(p[1]); break;
@@ -267,27 +270,27 @@ static void case_mf(Tape &t, Ctx &cx)
         case A_MF_DSIG: case A_MF_PSIG: q[0] = isc(p[0]); q[1] = sc(p[1]); q[2] = isc(p[2]); q[3] = sc(p[3]); break;
         default: for (unsigned i = 0; i < mf_npar(type); ++i) { q[i] = sc(p[i]); } break;
         }
-        double xs = sc(x);
+        R xs = sc(x);
         bool exact_scaling = std::ldexp(xs, -k) == x;
-        for (unsigned i = 0; i < mf_npar(type); ++i) { if (std::fabs(q[i]) < 2.3e-308 && q[i] != 0) { exact_scaling = false; } }
-        if (exact_scaling && (std::fabs(xs) >= 2.3e-308 || xs == 0))
+        for (unsigned i = 0; i < mf_npar(type); ++i) { if (std::fabs(q[i]) < MINN && q[i] != 0) { exact_scaling = false; } }
+        if (exact_scaling && (std::fabs(xs) >= MINN || xs == 0))
         {
-            double ys = a_mf(type, xs, q);
-            if (k > 900 || k < -900) { cx.label(L_MF_EXTREME_SCALE); }
+            R ys = a_mf(type, xs, q);
+            if (k > EXMAX * 7 / 8 || k < -EXMAX * 7 / 8) { cx.label(L_MF_EXTREME_SCALE); }
             snprintf(sig, sizeof(sig), "mf_%s:not_scale_invariant", nm[type]);
             if (!(fabsl((LD)ys - ref) <= 2 * tol)) { cx.fail(sig, "a_mf_%s with x and parameters scaled by 2^%d = %.17g (x=%.17g; %.17g, %.17g, %.17g, %.17g), unscaled shape value %.17Lg", nm[type], k, ys, xs, q[0], q[1], q[2], q[3], ref); }
         }
     }
     // dispatcher returns the same value, bit for bit
-    double yd = a_mf(type, x, p);
+    R yd = a_mf(type, x, p);
     snprintf(sig, sizeof(sig), "mf_%s:dispatcher", nm[type]);
-    VP_CHECK(cx, memcmp(&yd, &y, 8) == 0 || (yd != yd && y != y), sig, "a_mf(%u, x, params) = %.17g but the specific function returns %.17g", type, yd, y);
+    VP_CHECK(cx, memcmp(&yd, &y, sizeof(R)) == 0 || (yd != yd && y != y), sig, "a_mf(%u, x, params) = %.17g but the specific function returns %.17g", type, yd, y);
     // monotone on each flank: a second point on the same side of the core
     {
-        double x2 = pick_x(t, cx, bp);
-        double lo = std::min(x, x2), hi = std::max(x, x2);
-        double ylo = a_mf(type, lo, p), yhi = a_mf(type, hi, p);
-        double core_lo, core_hi;
+        R x2 = pick_x(t, cx, bp);
+        R lo = std::min(x, x2), hi = std::max(x, x2);
+        R ylo = a_mf(type, lo, p), yhi = a_mf(type, hi, p);
+        R core_lo, core_hi;
         switch (type)
         {
         case A_MF_TRAP: core_lo = p[1]; core_hi = p[2]; break;
@@ -301,7 +304,7 @@ static void case_mf(Tape &t, Ctx &cx)
         case A_MF_SIG: if (p[0] > 0) { core_lo = INFINITY; core_hi = INFINITY; } else { core_lo = -INFINITY; core_hi = -INFINITY; } break;
         default: core_lo = NAN; core_hi = NAN; break; // dsig / psig: the peak position is not a parameter
         }
-        double mt = 8 * tol;
+        R mt = 8 * tol;
         if (core_lo == core_lo && !any_value_ok && !(degenerate && (lo == bp.front() || hi == bp.back() || lo == hi)))
         {
             snprintf(sig, sizeof(sig), "mf_%s:not_monotone", nm[type]);
@@ -311,23 +314,23 @@ static void case_mf(Tape &t, Ctx &cx)
     }
 }
 
-static double gen_deg(Tape &t, Ctx &cx)
+static R gen_deg(Tape &t, Ctx &cx)
 {
     switch (t.u8() % 8)
     {
     case 0: cx.label(L_OPR_BOUNDARY); return 0;
     case 1: cx.label(L_OPR_BOUNDARY); return 1;
     case 2: return 0.5;
-    case 3: return 4.9e-324 * (1 + t.u8());
+    case 3: return std::numeric_limits<R>::denorm_min() * R(1 + t.u8());
     case 4: return 1 - EPS * (t.u8() % 8) / 2;
-    case 5: return double(t.u8()) / 255.0;
-    default: return double(t.u32()) / 4294967295.0;
+    case 5: return R(t.u8()) / 255.0;
+    default: return R(t.u32()) / 4294967295.0;
     }
 }
 
 static void case_opr(Tape &t, Ctx &cx)
 {
-    double a = gen_deg(t, cx), b = t.u8() % 5 == 0 ? a : gen_deg(t, cx), c = gen_deg(t, cx);
+    R a = gen_deg(t, cx), b = t.u8() % 5 == 0 ? a : gen_deg(t, cx), c = gen_deg(t, cx);
     cx.label(L_OPR);
     cx.hash.addd(a);
     cx.hash.addd(b);
@@ -337,23 +340,23 @@ static void case_opr(Tape &t, Ctx &cx)
     typedef a_real (*F)(a_real, a_real);
     static F const f[7] = {a_fuzzy_equ, a_fuzzy_cap, a_fuzzy_cap_algebra, a_fuzzy_cap_bounded, a_fuzzy_cup, a_fuzzy_cup_algebra, a_fuzzy_cup_bounded};
     static char const *const nm[7] = {"equ", "cap", "cap_algebra", "cap_bounded", "cup", "cup_algebra", "cup_bounded"};
-    double mn = std::min(a, b), mx = std::max(a, b);
+    R mn = std::min(a, b), mx = std::max(a, b);
     char sig[64];
     for (unsigned k = 0; k < 7; ++k)
     {
-        double y = f[k](a, b), yr = f[k](b, a);
+        R y = f[k](a, b), yr = f[k](b, a);
         LD ref = ref_opr(k, a, b);
-        double tol = (k == 0 ? 8 : 2) * EPS;
+        R tol = (k == 0 ? 8 : 2) * EPS;
         snprintf(sig, sizeof(sig), "opr_%s:wrong_value", nm[k]);
         VP_CHECK(cx, fabsl((LD)y - ref) <= tol, sig, "a_fuzzy_%s(%.17g, %.17g) = %.17g, documented formula gives %.17Lg", nm[k], a, b, y, ref);
         snprintf(sig, sizeof(sig), "opr_%s:not_commutative", nm[k]);
-        VP_CHECK(cx, memcmp(&y, &yr, 8) == 0, sig, "a_fuzzy_%s(%.17g, %.17g) = %.17g but with swapped arguments %.17g", nm[k], a, b, y, yr);
+        VP_CHECK(cx, memcmp(&y, &yr, sizeof(R)) == 0, sig, "a_fuzzy_%s(%.17g, %.17g) = %.17g but with swapped arguments %.17g", nm[k], a, b, y, yr);
         snprintf(sig, sizeof(sig), "opr_%s:outside_unit_interval", nm[k]);
         VP_CHECK(cx, y >= 0 && y <= 1 + tol, sig, "a_fuzzy_%s(%.17g, %.17g) = %.17g", nm[k], a, b, y);
         // monotone in the first argument: a <= c  =>  f(a,b) <= f(c,b)
         {
-            double lo = std::min(a, c), hi = std::max(a, c);
-            double ylo = f[k](lo, b), yhi = f[k](hi, b);
+            R lo = std::min(a, c), hi = std::max(a, c);
+            R ylo = f[k](lo, b), yhi = f[k](hi, b);
             snprintf(sig, sizeof(sig), "opr_%s:not_monotone", nm[k]);
             VP_CHECK(cx, ylo <= yhi + tol, sig, "a_fuzzy_%s(%.17g, %.17g) = %.17g > a_fuzzy_%s(%.17g, %.17g) = %.17g", nm[k], lo, b, ylo, nm[k], hi, b, yhi);
         }
@@ -373,9 +376,9 @@ static void case_opr(Tape &t, Ctx &cx)
         }
     }
     {
-        double e = a_fuzzy_equ(a, b), lo = a_fuzzy_cap_algebra(a, b), hi = a_fuzzy_cup_algebra(a, b);
+        R e = a_fuzzy_equ(a, b), lo = a_fuzzy_cap_algebra(a, b), hi = a_fuzzy_cup_algebra(a, b);
         VP_CHECK(cx, e >= lo - 8 * EPS && e <= hi + 8 * EPS, "opr_equ:not_between_cap_and_cup", "equ(%.17g, %.17g) = %.17g is not between the algebraic product %.17g and sum %.17g", a, b, e, lo, hi);
-        double g = a_fuzzy_equ_(0.5, a, b);
+        R g = a_fuzzy_equ_(0.5, a, b);
         VP_CHECK(cx, std::fabs(g - e) <= 16 * EPS, "opr_equ_:gamma_half", "equ_(0.5, a, b) = %.17g but equ(a, b) = %.17g", g, e);
         VP_CHECK(cx, std::fabs(a_fuzzy_equ_(0, a, b) - a * b) <= 8 * EPS && std::fabs(a_fuzzy_equ_(1, a, b) - (LD)(1 - (1 - (LD)a) * (1 - (LD)b))) <= 8 * EPS, "opr_equ_:gamma_ends", "equ_(0,a,b) / equ_(1,a,b) are not the algebraic product / sum");
         VP_CHECK(cx, a_fuzzy_not(a) == 1 - a, "opr_not:wrong", "not(%.17g) = %.17g", a, a_fuzzy_not(a));
@@ -394,16 +397,16 @@ static void case_infer(Tape &t, Ctx &cx)
     ctx.pid.summin = -1e6;
     a_pid_fuzzy_set_opr(&ctx, f.opr);
     // exact-size copies of the tables (an index overrun is an ASan error)
-    auto dup = [](std::vector<double> const &v) {
-        double *p = (double *)malloc(sizeof(double) * v.size());
-        memcpy(p, v.data(), sizeof(double) * v.size());
+    auto dup = [](std::vector<R> const &v) {
+        R *p = (R *)malloc(sizeof(R) * v.size());
+        memcpy(p, v.data(), sizeof(R) * v.size());
         return p;
     };
-    double *me = dup(f.me), *mec = dup(f.mec), *kp = dup(f.kp), *ki = dup(f.ki), *kd = dup(f.kd);
-    struct Fr { double *a, *b, *c, *d, *e; void *buf = nullptr; ~Fr() { free(a); free(b); free(c); free(d); free(e); free(buf); } } fr{me, mec, kp, ki, kd};
+    R *me = dup(f.me), *mec = dup(f.mec), *kp = dup(f.kp), *ki = dup(f.ki), *kd = dup(f.kd);
+    struct Fr { R *a, *b, *c, *d, *e; void *buf = nullptr; ~Fr() { free(a); free(b); free(c); free(d); free(e); free(buf); } } fr{me, mec, kp, ki, kd};
     a_pid_fuzzy_set_rule(&ctx, f.n, me, mec, f.use_kp ? kp : nullptr, f.use_ki ? ki : nullptr, f.use_kd ? kd : nullptr);
     a_pid_fuzzy_init(&ctx);
-    double bkp = double(int(t.u8() % 41) - 20), bki = double(t.u8() % 21) / 4, bkd = double(int(t.u8() % 41) - 20) / 2;
+    R bkp = R(int(t.u8() % 41) - 20), bki = R(t.u8() % 21) / 4, bkd = R(int(t.u8() % 41) - 20) / 2;
     a_pid_fuzzy_set_kpid(&ctx, bkp, bki, bkd);
     if (f.n >= 5) { cx.label(L_N_GE_5); }
     if (f.opr == A_PID_FUZZY_EQU) { cx.label(L_OPR_EQU); }
@@ -424,31 +427,31 @@ static void case_infer(Tape &t, Ctx &cx)
             cx.hash.add(m & 7);
         }
         // error and error change anywhere in / around the table ranges, incl. exactly on set centres
-        auto gv = [&](double L) {
+        auto gv = [&](R L) -> R {
             switch (t.u8() % 5)
             {
-            case 0: return L * double(int(t.u8() % 9) - 4) / 4;                                  // on centres / shoulders
-            case 1: return L * (double(t.u16()) / 32767.5 - 1) * 1.5;                            // around and beyond
+            case 0: return L * R(int(t.u8() % 9) - 4) / 4;                                  // on centres / shoulders
+            case 1: return L * (R(t.u16()) / 32767.5 - 1) * 1.5;                            // around and beyond
             case 2: return L * 3;                                                               // far outside
-            default: return L * (double(t.u16()) / 32767.5 - 1);
+            default: return L * (R(t.u16()) / 32767.5 - 1);
             }
         };
-        double e = gv(f.L), prev = ctx.pid.err;
-        double ec_target = gv(f.Lc);
+        R e = gv(f.L), prev = ctx.pid.err;
+        R ec_target = gv(f.Lc);
         // choose (set, fdb) so that err = e exactly-ish and err - previous err = ec
-        double set = e, fdb = 0;
+        R set = e, fdb = 0;
         (void)ec_target;
         if (s > 0 && t.coin()) { set = prev + ec_target; e = set; }
-        double ec = (set - fdb) - prev;
+        R ec = (set - fdb) - prev;
         e = set - fdb;
         cx.hash.addd(e);
         cx.hash.addd(ec);
         std::vector<unsigned> ie, iec;
-        std::vector<double> ve, vec;
+        std::vector<R> ve, vec;
         active_sets(f.se, e, ie, ve);
         active_sets(f.sec, ec, iec, vec);
         size_t N = std::max(ie.size(), iec.size());
-        cx.metric(2, double(N));
+        cx.metric(2, R(N));
         if (N >= 3) { cx.label(L_ACTIVE_GE_3); }
         // scratch buffer of exactly the documented size for the number of simultaneously active sets
         free(fr.buf);
@@ -469,7 +472,7 @@ static void case_infer(Tape &t, Ctx &cx)
         {
             for (size_t j = 0; j < iec.size(); ++j)
             {
-                LD w = ref_opr_d(f.opr, ve[i], vec[j]); /* documented formula, evaluated in double like the library */
+                LD w = ref_opr_d(f.opr, ve[i], vec[j]); /* documented formula, evaluated in R like the library */
                 size_t at = size_t(ie[i]) * f.n + iec[j];
                 sw += w;
                 aw += fabsl(w);
@@ -484,7 +487,7 @@ static void case_infer(Tape &t, Ctx &cx)
                 }
             }
         }
-        double got[3] = {ctx.pid.kp - bkp, ctx.pid.ki - bki, ctx.pid.kd - bkd};
+        R got[3] = {ctx.pid.kp - bkp, ctx.pid.ki - bki, ctx.pid.kd - bkd};
         bool used[3] = {f.use_kp, f.use_ki, f.use_kd};
         static char const *const gn[3] = {"kp", "ki", "kd"};
         if (ie.size() >= 2 && iec.size() >= 2)
@@ -518,9 +521,9 @@ static void case_infer(Tape &t, Ctx &cx)
             }
             LD mag = fabsl(hi[k]) > fabsl(lo[k]) ? fabsl(hi[k]) : fabsl(lo[k]);
             LD base = k == 0 ? fabsl((LD)bkp) : k == 1 ? fabsl((LD)bki) : fabsl((LD)bkd);
-            LD tol = 8 * (ie.size() * iec.size() + 4) * 1.1102230246251565e-16L * (mag + base) * (aw / fabsl(sw)) + 1e-300L;
+            LD tol = 8 * (ie.size() * iec.size() + 4) * U_ * (mag + base) * (aw / fabsl(sw)) + 1e-300L;
             LD err = fabsl((LD)got[k] - want[k]);
-            cx.metric(1, double(err / tol));
+            cx.metric(1, R(err / tol));
             if (!(err <= tol)) { cx.fail("infer:not_weighted_mean", "step %u (e=%.17g, ec=%.17g, operator %u, %zu x %zu active): %s - base = %.17g, weighted mean of the active consequents = %.17Lg", s, e, ec, f.opr, ie.size(), iec.size(), gn[k], got[k], want[k]); }
             if (!((LD)got[k] >= lo[k] - tol && (LD)got[k] <= hi[k] + tol)) { cx.fail("infer:outside_consequent_range", "step %u: %s - base = %.17g lies outside the consequents of the active rules [%.17Lg, %.17Lg]", s, gn[k], got[k], lo[k], hi[k]); }
         }
